@@ -447,6 +447,18 @@ func sel(name, ctor string, k int, s Sort, t *Term) *Term {
 	return App(name, s, t)
 }
 
+// Idx is the absolute index of logical index i in a slice with offset off.
+// It is an uninterpreted function with the axiom idx(o,i) = o+i so that
+// quantifier patterns over elements contain no arithmetic.
+func Idx(off, i *Term) *Term {
+	if o, ok := off.IntVal(); ok {
+		if k, ok2 := i.IntVal(); ok2 {
+			return IntLit(o + k)
+		}
+	}
+	return App("idx", SInt, off, i)
+}
+
 var NilSlice = MkSlice(IntLit(0), IntLit(0), IntLit(0), IntLit(0))
 var EmptyStr = MkStr(IntLit(0), IntLit(0), IntLit(0))
 var NilIface = MkIface(IntLit(0), IntLit(0))
